@@ -177,7 +177,7 @@ fn status_text(st: &std::process::ExitStatus) -> String {
 pub fn run(prop: &Property, tier: Tier, seed: u64, shards_override: Option<usize>) -> i32 {
     let t_start = Instant::now();
     let root = verif_root();
-    let work = root.join("harness/target/run").join(prop.id);
+    let work = root.join("harness/target/run").join(format!("{}{}", prop.id, std::env::var("VERIF_EVIDENCE_SUFFIX").unwrap_or_default()));
     let _ = fs::remove_dir_all(&work);
     fs::create_dir_all(&work).expect("create work dir");
     let cores = std::thread::available_parallelism().map(|n| n.get()).unwrap_or(4);
@@ -394,7 +394,8 @@ pub fn run(prop: &Property, tier: Tier, seed: u64, shards_override: Option<usize
     });
     let ev_dir = root.join("evidence");
     let _ = fs::create_dir_all(&ev_dir);
-    fs::write(ev_dir.join(format!("{}.json", prop.id)), serde_json::to_string_pretty(&evidence).unwrap() + "\n").expect("write evidence");
+    let suffix = std::env::var("VERIF_EVIDENCE_SUFFIX").unwrap_or_default();
+    fs::write(ev_dir.join(format!("{}{}.json", prop.id, suffix)), serde_json::to_string_pretty(&evidence).unwrap() + "\n").expect("write evidence");
 
     for (sig, (what, n)) in &known_hit {
         println!("KNOWN-FINDING: property={} {} [signature={} cases={}]", prop.id, what, sig, n);
